@@ -28,7 +28,15 @@ PARTIAL = ('proved (Properties/C10.v, all closed under the global context): C10_
            'hypotheses are LAPACK-level contracts on the calls actually issued (block QR; numpy.linalg.norm, sound breakdown test, eigh_tridiagonal with U^T U = I, '
            'T U = U diag(w), ascending w, (U U^T) e_0 = e_0), right-isometry of orthonormalize, Hermiticity of the MPO (word-level, as in C04_heff_hermitian) and H >= lam for the '
            'variational clause; self-adjointness of every local effective Hamiltonian and non-vanishing of every start tensor are derived from the sweep invariant; per call: '
-           'C10_keig_from_krylov (also covers the merged two-site calls). The two-site whole-run instantiation (C10_dmrg2_whole_run_lapack) is NOT done: statement kept as a comment. '
+           'C10_keig_from_krylov (also covers the merged two-site calls). LINK, TWO-SITE (C10_dmrg2_whole_run_lapack, Proofs/Link2*.v): the two-site whole-run theorem '
+           '(tol_split = 0) with the eigensolver argument instantiated by keig_lanczos applied to the merged two-site problem (physical dimension d*d, merged MPO tensor, '
+           'flattened length d*d*Dl*Dr): the only remaining hypotheses are LAPACK-level contracts on the calls actually issued (block QR of the final normalisation; '
+           'numpy.linalg.norm, sound breakdown test, eigh_tridiagonal with U^T U = I, T U = U diag(w), ascending w, (U U^T) e_0 = e_0), the exact-split contract on every '
+           'SPLITL / SPLITR entry, right-isometry of orthonormalize, Hermiticity of the MPO and H >= lam for the variational clause; self-adjointness of every merged effective '
+           'Hamiltonian is derived from the two-site invariant Z2 (C04_two_site_is_projection + mpo_herm; C10_two_site_invariant_gives_local_problem), non-vanishing of every '
+           'merged start tensor from norm one; per entry: C10_eig2_entry_from_krylov; lock-step induction over the two-site schedule (C10_dmrg2_lapack_to_ritz); non-vacuity: '
+           'the L = 3 rational instance run with the REAL eigensolver (numiter = 1, exact rational split and QR oracles), all hypotheses but H >= lam checked by kernel '
+           'evaluation and the theorem applied to it (C10_dmrg2_whole_run_lapack_nonvacuous, C10_dmrg2_whole_run_lapack_example). '
            'NOT proved: reaching the exact ground energy on a complete manifold (spectral theory), splits with tol > 0, that the '
            'FLOATING-POINT primitives (LAPACK QR / eigh_tridiagonal / norm, hence the floating-point Lanczos) meet their exact contracts (measured), that the floating-point SVD split meets the exact-split contract (at tol = 0 this is what '
            'C03_merge_split_id and C12_block_svd_spec prove of the split model in exact arithmetic; here only its consequences are measured), rounding (measured by prop()); '
